@@ -24,7 +24,8 @@ OptAddrClasses == AddrClasses \cup {"none"}
 ListClasses   == {"ok", "empty", "dup", "onewrongprefix", "oneextprefix", "onebadchecksum", "dupcase", "dupfar", "dupcasefar"}
 DenomClasses  == {"ok", "short", "nonalpha"}
 IbcDenomClasses == {"ok", "noprefix", "len63", "len65", "multibyte64"}
-ChannelClasses == {"ok", "noprefix", "nonnumeric", "empty", "bare", "signed", "negative", "spaced"}
+\* ("huge": digits only, but the number does not fit the 64 bits of an IBC channel sequence)
+ChannelClasses == {"ok", "noprefix", "nonnumeric", "empty", "bare", "signed", "negative", "spaced", "huge"}
 
 Sections == {"native", "proto", "feecfg", "monitorsec", "period"}
 Fields == [native |-> {"n_prefix", "n_valprefix", "n_token", "n_validators", "n_staker", "n_collector"},
